@@ -4,7 +4,13 @@
 package lib
 
 import (
+	"bufio"
+	"encoding/binary"
+	"encoding/json"
 	"fmt"
+	"io"
+	"os"
+	"os/exec"
 	"strings"
 
 	"github.com/gabriel-vasile/mimetype"
@@ -94,6 +100,91 @@ func Init() {
 	mimetype.SetLimit(DefaultLimit)
 }
 
+// The reference process. Baseline answers (B, LB) must come from a tree no
+// Extend ever touched. Inside a worker that executes many runs the tree is put
+// back between runs by writing to the library's internals, which is only as
+// good as our knowledge of where the library keeps its state; so the baseline
+// is not computed in the worker at all but in a child process of the same
+// binary that never registers anything.
+type refProc struct {
+	cmd *exec.Cmd
+	in  io.WriteCloser
+	out *bufio.Reader
+}
+
+var ref *refProc
+
+// StartReference launches the reference process (the running binary with --reference).
+func StartReference() error {
+	cmd := exec.Command(os.Args[0], "--reference")
+	cmd.Stderr = os.Stderr
+	in, err := cmd.StdinPipe()
+	if err != nil {
+		return err
+	}
+	out, err := cmd.StdoutPipe()
+	if err != nil {
+		return err
+	}
+	if err := cmd.Start(); err != nil {
+		return err
+	}
+	ref = &refProc{cmd: cmd, in: in, out: bufio.NewReaderSize(out, 1<<16)}
+	return nil
+}
+
+func (r *refProc) ask(op byte, limit uint32, payload []byte) Res {
+	var hdr [9]byte
+	hdr[0] = op
+	binary.LittleEndian.PutUint32(hdr[1:], limit)
+	binary.LittleEndian.PutUint32(hdr[5:], uint32(len(payload)))
+	if _, err := r.in.Write(hdr[:]); err != nil {
+		panic("reference process: " + err.Error())
+	}
+	if _, err := r.in.Write(payload); err != nil {
+		panic("reference process: " + err.Error())
+	}
+	line, err := r.out.ReadBytes('\n')
+	if err != nil {
+		panic("reference process: " + err.Error())
+	}
+	var res Res
+	if err := json.Unmarshal(line, &res); err != nil {
+		panic("reference process: " + err.Error())
+	}
+	return res
+}
+
+// ServeReference is the main loop of the reference process.
+func ServeReference() {
+	in := bufio.NewReaderSize(os.Stdin, 1<<16)
+	out := bufio.NewWriter(os.Stdout)
+	enc := json.NewEncoder(out)
+	for {
+		var hdr [9]byte
+		if _, err := io.ReadFull(in, hdr[:]); err != nil {
+			return
+		}
+		limit := binary.LittleEndian.Uint32(hdr[1:])
+		payload := make([]byte, binary.LittleEndian.Uint32(hdr[5:]))
+		if _, err := io.ReadFull(in, payload); err != nil {
+			return
+		}
+		core.Tick()
+		var res Res
+		switch hdr[0] {
+		case 'B':
+			mimetype.SetLimit(limit)
+			res = Observe(mimetype.Detect(payload))
+			mimetype.SetLimit(DefaultLimit)
+		case 'L':
+			res = Observe(mimetype.Lookup(string(payload)))
+		}
+		enc.Encode(res)
+		out.Flush()
+	}
+}
+
 // Reset restores the pristine tree and the default limit. Kernel goroutine only,
 // with no simulation running.
 func Reset() {
@@ -134,10 +225,16 @@ func B(x []byte, l uint32) Res {
 	}
 	MemoMisses++
 	core.Tick()
-	hc := append([]byte(nil), h...)
-	mimetype.SetLimit(l)
-	r := Observe(mimetype.Detect(hc))
-	mimetype.SetLimit(DefaultLimit)
+	var r Res
+	if ref != nil {
+		r = ref.ask('B', l, h)
+	} else {
+		hc := append([]byte(nil), h...)
+		mimetype.SetLimit(l)
+		r = Observe(mimetype.Detect(hc))
+		mimetype.SetLimit(DefaultLimit)
+	}
+	core.Tick()
 	if len(memo) > 200000 {
 		memo = map[string]Res{}
 	}
@@ -150,7 +247,12 @@ func LB(name string) Res {
 	if r, ok := lookups[name]; ok {
 		return r
 	}
-	r := Observe(mimetype.Lookup(name))
+	var r Res
+	if ref != nil {
+		r = ref.ask('L', 0, []byte(name))
+	} else {
+		r = Observe(mimetype.Lookup(name))
+	}
 	lookups[name] = r
 	return r
 }
